@@ -227,6 +227,22 @@ def rule_who(ck):
                    'CartesianGrid2D\'s' % f.short)
         else:
             o.ok('not a coordinate binning')
+    # module-level helpers that bin longitudes / latitudes on edges they are handed (the pre-region code path): they know nothing of
+    # the region's closed single-edge lattice or its mask conventions, so nothing in the package may route events through them
+    wrappers = coord_binners(P)
+    for g in P.funcs_in('csep.core.regions'):
+        if g.cls is not None or g.parent is not None or g.qualname in wrappers:
+            continue
+        own = [c for c in calls_in(P, g, BIN) if (role_of(kw(c, 'bins', 1)) if kw(c, 'bins', 1) is not None else set()) & {'lon', 'lat'}
+               or (role_of(kw(c, 'p', 0)) if kw(c, 'p', 0) is not None else set()) & {'lon', 'lat'}]
+        if not own:
+            continue
+        users = [(f, c) for f in P.funcs.values() for c in all_nodes(f) if isinstance(c, ast.Call) and callee(P, f, c) == g.qualname and f is not g]
+        o = ck.ob('C01-D2.legacy', g, 'no caller inside the package', g.node)
+        (o.fail('%s sends coordinates through %s, which bins them directly on the edge arrays: a second partition beside '
+                'get_index_of / get_masked (it leaves a single-row or single-column lattice open towards +infinity, so an event beyond '
+                'the row is counted in a cell that get_masked says it is outside of)' % (users[0][0].short, g.short)) if users else
+         o.ok('unused'))
     # catalogs ask the region with (lon, lat)
     for q in ('spatial_counts', 'spatial_event_probability', 'spatial_magnitude_counts', 'get_spatial_idx', 'to_dataframe', 'filter_spatial'):
         f = P.func('csep.core.catalogs.AbstractBaseCatalog.' + q)
